@@ -106,8 +106,12 @@ def main():
         with Patched(toast, **patch):
             ntiles = (14 if mode == "so" else 4) if h.deep else (5 if mode == "so" else 2)
             cases = [(1, rng.randrange(2), rng.randrange(2)), (2, rng.randrange(4), rng.randrange(4))]
+            # deep tiles too (the statement has no depth limit), and at each run one that has a pole as a corner / lies beside one
+            npole = rng.choice([11, 12, 13])
+            cases.append((npole,) + rng.choice([(2 ** (npole - 1), 2 ** (npole - 1)), (2 ** (npole - 1) - 1, 2 ** (npole - 1)), (0, 0), (2 ** npole - 1, 0)]))
+            ntiles += 1
             while len(cases) < ntiles:
-                n = rng.choice([3, 4, 6, 8, 10])
+                n = rng.choice([3, 4, 6, 8, 10, 11, 13])
                 cases.append((n, rng.randrange(2 ** n), rng.randrange(2 ** n)))
             for ti, pos in enumerate(cases):
                 order = systems if rng.random() < 0.5 else systems[::-1]
